@@ -170,6 +170,8 @@ def _halflife_to_int(halflife):
 
 def _times_to_int_array(times):
     times, _ = _convert_timestamp_to_tz_unaware(times)
+    if times.dtype.kind == "M":
+        times = times.astype("datetime64[ns]")
     return times.view(np.int64)
 
 
